@@ -60,6 +60,10 @@ impl FlyClientPDF {
     //   - CDF: $$F(x) = \frac{\ln{(1-x)}}{ln{\delta}}$$
     //   - Inverse Function of CDF: $$h(x) = F^{-1}(x) = 1 - \delta^{x}$$
     fn gen_x(&self) -> f64 {
+        #[cfg(nervosnetwork_ckb_light_client_verif)]
+        if let Some(unit) = crate::verif_hooks::random_unit() {
+            return 1.0 - self.delta.powf(unit * self.x_max);
+        }
         let mut rng = thread_rng();
         let x: f64 = rng.gen_range(0.0..self.x_max);
         1.0 - self.delta.powf(x)
